@@ -1,11 +1,11 @@
 #!/bin/bash
-# tools/mkrt.sh <id>: scratch worktree for a red-team agent: /tmp/rt_<id>/repo (detached HEAD of /repo), /tmp/rt_<id>/out
+# tools/mkrt.sh <id> [<property id>]: scratch worktree for a red-team agent: /tmp/rt_<id>/repo (detached HEAD of /repo), /tmp/rt_<id>/out
 set -eu
 N="$1"; W=/tmp/rt_$N
 git -C /repo worktree remove --force "$W/repo" 2>/dev/null || true
 rm -rf "$W"; mkdir -p "$W/out"
 git -C /repo worktree add -q --detach "$W/repo" HEAD
-python3 - "$N" <<'PY' > "$W/PROPERTY.txt"
+python3 - "${2:-$N}" <<'PY' > "$W/PROPERTY.txt"
 import json,sys
 pid=sys.argv[1].upper()
 for l in open('/verif/properties.jsonl'):
